@@ -23,3 +23,36 @@ fn ghost_powf32(x: f32, y: f32) -> f32 {
     }
     r
 }
+// ---- recording ghost for powi: squaring is uninterpreted-monotone ----
+// fl(x*x) as a function of |x| is: never NaN for non-NaN x, >= 0, 0 at 0, 1 at 1, monotone non-decreasing (IEEE
+// multiplication is correctly rounded and rounding is monotone).  Monotonicity of a 24x24-bit multiplier is out
+// of reach of the SAT back end (measured: no answer in 15 min with cadical, kissat, minisat), so it is an AXIOM
+// here; c07_conv_l2_exact checks it with the real x*x on a bounded domain.  Other exponents: uninterpreted.
+#[allow(dead_code)] static mut PW_X: [f32; PF_CAP] = [0.0; PF_CAP];
+#[allow(dead_code)] static mut PW_E: [i32; PF_CAP] = [0; PF_CAP];
+#[allow(dead_code)] static mut PW_R: [f32; PF_CAP] = [0.0; PF_CAP];
+#[allow(dead_code)] static mut PW_N: usize = 0;
+#[allow(dead_code)]
+fn ghost_powi32_rec(x: f32, n: i32) -> f32 {
+    let r: f32 = kani::any();
+    if n == 2 {
+        if x.is_nan() { kani::assume(r.is_nan()); } else {
+            kani::assume(!r.is_nan() && r >= 0.0);
+            if x == 0.0 { kani::assume(r == 0.0); }
+            if x.abs() == 1.0 { kani::assume(r == 1.0); }
+            if x.is_infinite() { kani::assume(r == f32::INFINITY); }
+        }
+    }
+    unsafe {
+        let mut i = 0;
+        while i < PW_N {
+            if n == 2 && PW_E[i] == 2 && !x.is_nan() && !PW_X[i].is_nan() {
+                if x.abs() <= PW_X[i].abs() { kani::assume(r <= PW_R[i]); }
+                if x.abs() >= PW_X[i].abs() { kani::assume(r >= PW_R[i]); }
+            }
+            i += 1;
+        }
+        if PW_N < PF_CAP { PW_X[PW_N] = x; PW_E[PW_N] = n; PW_R[PW_N] = r; PW_N += 1; }
+    }
+    r
+}
